@@ -58,8 +58,8 @@ def model_build(r, v, kw):
         return ("reject", "type")
     except (M.ModelGap, M.MissingKey, M.Unsized) as e:
         return ("gap", type(e).__name__ + ":" + str(e)[:60])
-    except RecursionError:
-        return ("gap", "recursion")
+    except (RecursionError, MemoryError, OverflowError):
+        return ("gap", "resources")
 
 
 def model_parse(r, data, kw):
@@ -70,8 +70,8 @@ def model_parse(r, data, kw):
         return ("reject", e.kind)
     except (M.ModelGap, M.MissingKey, M.Unsized) as e:
         return ("gap", type(e).__name__ + ":" + str(e)[:60])
-    except RecursionError:
-        return ("gap", "recursion")
+    except (RecursionError, MemoryError, OverflowError):
+        return ("gap", "resources")
 
 
 def model_size(r, kw):
